@@ -154,6 +154,12 @@ def handle_soft(ctx, P):
     return len(soft)
 
 
+def fresh(corruptions):
+    """corruption_selftest hands out shallow copies; the corruptions here edit nested values"""
+    import copy
+    return [(n, (lambda f: (lambda evs: f(copy.deepcopy(evs))))(f)) for n, f in corruptions]
+
+
 # ---- non-triviality predicates ------------------------------------------------------------------------------------
 
 def overlapping(evs):
